@@ -128,6 +128,10 @@ MUTATIONS = [
     ("c19-perform-ignored", "cli/jobs.py", "            if perform:\n                cprint(\"Cleaning...\", \"red\")\n                rmtree(p)", "            if True:\n                cprint(\"Cleaning...\", \"red\")\n                rmtree(p)", ["C19"]),
     ("c19-clean-not-finished", "cli/jobs.py", "        if clean and info.state and info.state.finished():", "        if clean and info.state:", ["C19"]),
     ("c19-orphans-ignore-bak", "cli/__init__.py", "        paths = chain((path / \"xp\").glob(\"*/jobs\"), (path / \"xp\").glob(\"*/jobs.bak\"))", "        paths = (path / \"xp\").glob(\"*/jobs\")", ["C19"]),
+    ("c19-revert-orphans-link-target", "cli/__init__.py", "        if key not in xpjobs and jobpath.resolve() not in xptargets:", "        if key not in xpjobs:", ["C19"]),
+    ("c19-orphans-rmtree-link", "cli/__init__.py", "                if jobpath.is_symlink():\n                    jobpath.unlink()\n                else:\n                    rmtree(jobpath)", "                rmtree(jobpath)", ["C19"]),
+    ("c19-experiment-by-taskname", "cli/jobs.py", ["                job2xp.setdefault(job_path, set()).add(p.name)", "            xps = job2xp.get(p, set())"], ["                job2xp.setdefault(job_path.parent.name, set()).add(p.name)", "            xps = job2xp.get(p.parent.name, set())"], ["C19"]),
+    ("c19-experiment-ignored", "cli/jobs.py", "            if experiment and experiment not in xps:\n                continue", "            pass", ["C19"]),
     ("c19-notin-as-in", "cli/filter.py", "        return value not in self.values", "        return value in self.values", ["C19"]),
     ("c19-revert-fix12", "cli/filter.py", "varQuotedString = quotedString.copy()", "varQuotedString = quotedString", ["C19"]),
     ("c19-revert-state-order", "cli/filter.py", "        if (self.path / f\"{self.scriptname}.pid\").is_file():\n            return JobState.RUNNING\n        if (self.path / f\"{self.scriptname}.failed\").is_file():\n            return JobState.ERROR", "        if (self.path / f\"{self.scriptname}.failed\").is_file():\n            return JobState.ERROR\n        if (self.path / f\"{self.scriptname}.pid\").is_file():\n            return JobState.RUNNING", ["C19"]),
